@@ -359,3 +359,37 @@ func VerifC03Views() {
 	}
 	verifCover("C03.view.end")
 }
+
+// extension blocks of 16383..65535 words (the 16-bit length field's upper range):
+// the bulk is a fixed filler that only travels through slicing and copy, the
+// interesting bytes are symbolic
+func VerifC03HugeBlock() {
+	words := verifPick("words", []int{0x3FFF, 0x4000, 0x4001, 0xFFFF})
+	prof := verifU16("profile")
+	verifAssume(prof != 0xBEDE)
+	verifAssume(prof != 0x1000)
+	body := 4 * words
+	img := make([]byte, 16+body+2)
+	img[0] = 0x90
+	img[1] = verifU8("b1")
+	img[12], img[13] = uint8(prof>>8), uint8(prof)
+	img[14], img[15] = uint8(words>>8), uint8(words)
+	edge := verifBytes("edge", 4)
+	img[16], img[16+body-1] = edge[0], edge[1]
+	img[16+body], img[16+body+1] = edge[2], edge[3]
+	var p Packet
+	err := p.Unmarshal(img)
+	verifAssert("C03.huge.accept", err == nil)
+	v := p.GetExtension(0)
+	verifAssert("C03.huge.value-len", len(v) == body)
+	verifAssert("C03.huge.value-edges", len(v) == body && v[0] == edge[0] && v[body-1] == edge[1])
+	verifAssert("C03.huge.payload", len(p.Payload) == 2 && p.Payload[0] == edge[2] && p.Payload[1] == edge[3])
+	var h Header
+	n, err := h.Unmarshal(img)
+	verifAssert("C03.huge.header-n", err == nil && n == 16+body)
+	verifAssert("C03.huge.size", p.MarshalSize() == len(img))
+	// one word short of the declared block is rejected
+	var q Packet
+	verifAssert("C03.huge.truncated", q.Unmarshal(img[:16+body-1]) != nil)
+	verifCover("C03.huge.end")
+}
